@@ -169,6 +169,9 @@ func (e *Engine) invoke(s *State, f *Frame, x *ssa.Call, recv Value, m *types.Fu
 			if ic := e.l.iface[key]; ic != nil {
 				e.note("dynamic call " + key + ": the interface-method contract is used (every implementation under contract is checked to restate its postconditions)")
 				e.ifaceUsed[key] = true
+				if e.mode == COMPLETE {
+					e.note("dynamic call " + key + " in COMPLETE mode: the completeness premises (complete_requires / honest) of the implementations are not checked at this call - each implementation is verified under its own premises, that the circuit description meets them is assumed")
+				}
 				r := e.applyContract(s, f, x, ic.carrier, ic.ct, append([]Value{recv}, args...), probe)
 				return r, false
 			}
@@ -1094,6 +1097,17 @@ func (e *Engine) checkAccumulatorReuse(s *State, f *Frame, x *ssa.Call, name str
 					"an operand of this API call was the accumulator of the MulAcc at "+e.posOf(pos)+": gnark may have overwritten it in place")
 				delete(s.consumedAcc, t) // one report per value
 			}
+		}
+	}
+	if name == "MulAcc" && len(args) == 3 && probe == nil && e.curFn != nil {
+		// ownership: an accumulator that is an entry value of the function under verification (a parameter, a field
+		// or an element of one) belongs to the caller, who may still hold and use it; whether it has spare capacity
+		// is not known here (the caller may pass the result of an earlier MulAcc).  Overwriting it is allowed only
+		// when the contract says so (`flag consumes-accumulator`: callers then treat their arguments as consumed).
+		if t := term(args[0]); t != nil && t.Op == "var" && strings.HasPrefix(t.Name, funcKey(e.curFn)+".") &&
+			!(e.curC != nil && e.curC.Flags["consumes-accumulator"]) {
+			e.emit(s, "acc-owned", e.callSiteName(f, x, "invoke."+name), BoolC(false), x.Pos(),
+				"the accumulator of this MulAcc is a value passed in by the caller ("+t.Name+"): gnark's R1CS builder may overwrite it in place, so the caller's copy becomes unreliable; copy it first (api.Mul(x, 1)) or declare `flag consumes-accumulator`")
 		}
 	}
 	if name == "MulAcc" && len(args) == 3 {
